@@ -220,6 +220,99 @@ def e2e_request(ctx, server_port, seen, kind, cid, diff=True):
     L.wait_until(lambda: not assoc.is_alive(), 1.0)
 
 
+def raw_mixed_request(assoc, req, cmd_cid, tail_cid, shape, timeout=2.5):
+    """send `req` as ONE P-DATA whose PDVs do not all carry the same context id:
+    shape "trailing": the whole message on `cmd_cid`, then one more (empty, last-data-fragment) PDV on `tail_cid`;
+    shape "data": command-set fragments on `cmd_cid`, data-set fragments on `tail_cid`.
+    -> (response item or None, aborted)"""
+    import queue as _q
+    import time
+
+    from pynetdicom.dimse import _RQ_TO_MESSAGE
+    from pynetdicom.pdu_primitives import P_DATA
+
+    msg = _RQ_TO_MESSAGE[type(req)]()
+    msg.primitive_to_message(req)
+    msg.context_id = cmd_cid
+    pdvs = [list(v) for pd in msg.encode_msg(cmd_cid, 16382) for v in pd.presentation_data_value_list]
+    if shape == "data":
+        for v in pdvs:
+            if v[1][0] in (0, 2):
+                v[0] = tail_cid
+    else:
+        pdvs.append([tail_cid, b"\x02"])
+    pd = P_DATA()
+    pd.presentation_data_value_list = pdvs
+    assoc._reactor_checkpoint.clear()
+    L.wait_until(lambda: assoc._is_paused, 2.0, 0.001)
+    assoc.dul.send_pdu(pd)
+    rsp = None
+    t0 = time.monotonic()
+    while time.monotonic() - t0 < timeout:
+        try:
+            rsp = assoc.dimse.msg_queue.get(timeout=0.02)
+            if rsp[1] is None:
+                rsp = None
+            break
+        except _q.Empty:
+            pass
+        if assoc.acse.is_aborted() or not assoc.dul.is_alive():
+            break
+    assoc._reactor_checkpoint.set()
+    L.wait_until(lambda: assoc.is_aborted or assoc.is_released or not assoc.is_established, 1.5 if rsp is None else 0.05)
+    return rsp, bool(assoc.is_aborted)
+
+
+def layer_e2e_mixed(ctx):
+    """C': one message whose PDVs carry different context ids - the id that counts is the one the command set
+    arrived on: unaccepted there => no handler, no answer, abort, whatever id later PDVs of the same P-DATA carry"""
+    seen = []
+    server, port = L.start_acceptor(E2E_SUPPORTED, seen)
+    plan = [("cEcho", "trailing"), ("cStore", "data"), ("cStore", "trailing"), ("cFind", "data"), ("nCreate", "trailing"),
+            ("nEventReport", "data"), ("nDelete", "trailing")]
+    bad_ids = [0, 2, 5, 21, 255]
+    if ctx.quick:
+        jobs = [(k, sh, bad_ids[i % len(bad_ids)]) for i, (k, sh) in enumerate(plan)]
+    else:
+        jobs = [(k, sh, c) for k, sh in plan for c in bad_ids + [ctx.rng.randrange(256) for _ in range(3)]]
+    try:
+        for kind, shape, cid in jobs:
+            scu = L.new_ae(timeout=3.0)
+            for ab in E2E_REQUESTED:
+                scu.add_requested_context(ab, [L.ts_uid(L.IMPLICIT_LE)])
+            assoc = scu.associate("127.0.0.1", port)
+            if not assoc.is_established:
+                ctx.note(f"e2e-mixed {kind}/{cid}: association not established")
+                continue
+            acc = dict(assoc._accepted_cx)
+            if cid in acc:
+                assoc.release()
+                continue
+            # the accepted context the later PDVs pretend to be on: the natural one for the kind if accepted, else any
+            nat = [k for k, c in acc.items() if str(c.abstract_syntax) == E2E_CLASS[kind]]
+            tail = nat[0] if nat else sorted(acc)[0]
+            del seen[:]
+            req = L.make_request(kind, E2E_CLASS[kind])
+            rsp, aborted = raw_mixed_request(assoc, req, cid, tail, shape)
+            L.wait_until(lambda: False, 0.05)
+            calls = list(seen)
+            case = ["e2e-mixed", {"kind": kind, "shape": shape, "cid": cid, "tail": tail}]
+            ctx.case(case, nontrivial=True, kind=f"e2e-mixed:{shape}:{'handler' if calls else 'abort' if aborted else 'nothing'}")
+            if calls:
+                ctx.fail(f"serve-request:unaccepted-id-reaches-handler:{kind}:mixed-ids",
+                         f"e2e: {kind} request, command set on context {cid} (accepted {sorted(acc)}), {shape} PDV on context {tail}: reached {calls}", case)
+            if rsp is not None:
+                ctx.fail(f"serve-request:unaccepted-id-answered:{kind}:mixed-ids",
+                         f"e2e: {kind} request, command set on context {cid}, {shape} PDV on {tail}: answered on context {rsp[0]}", case)
+            if not aborted and not calls and rsp is None:
+                ctx.fail(f"serve-request:unaccepted-id-not-aborted:{kind}:mixed-ids", f"e2e: {kind} on context {cid}/{tail}: no abort", case)
+            if assoc.is_established:
+                assoc.release()
+            L.wait_until(lambda: not assoc.is_alive(), 1.0)
+    finally:
+        server.shutdown()
+
+
 def layer_e2e_serve(ctx, plan, diff=True):
     seen = []
     server, port = L.start_acceptor(E2E_SUPPORTED, seen)
@@ -322,6 +415,7 @@ def run(ctx):
         layer_serve(ctx, 20, 30)
     layer_substore(ctx, ctx.n(10, 12), ctx.n(24, None))
     layer_e2e_serve(ctx, e2e_plan(ctx))
+    layer_e2e_mixed(ctx)
     layer_e2e_cget(ctx, ctx.n(3, 30), 8)
     ctx.exhaustive = not ctx.quick
 
@@ -330,6 +424,7 @@ def search(ctx):
     layer_serve(ctx, 4, None, diff=False)
     layer_substore(ctx, 6, None, diff=False)
     layer_e2e_serve(ctx, e2e_plan(ctx), diff=False)
+    layer_e2e_mixed(ctx)
     layer_e2e_cget(ctx, 6, 8, diff=False)
 
 
